@@ -42,6 +42,8 @@ def gen_call(rng, case, kind):
         call["fail"] = {str(i): [rng.choice(types), "t%d" % j] for j, i in enumerate(idx)}
     elif kind == "iterfail":
         call["iter_fail"] = rng.randint(0, n) if rng.random() < 0.8 else -1      # -1: iter(iterable) itself raises
+        if call["iter_fail"] >= 0 and rng.random() < 0.25:
+            call["iter_fail_base"] = True        # the input raises a BaseException that is not an Exception
     elif kind == "never":
         if n == 0:
             call["n"] = n = rng.randint(1, 6); call["dur"] = pc.gen_durations(rng, n)
@@ -192,7 +194,7 @@ def oracle(w, s):
             for (i, t, tag) in w.raised[c]:
                 allowed.append((t, [c, i, tag]))
             for j in w.iter_raised.get(c, ()):
-                allowed.append(("IterErr", [c, j]))
+                allowed.append(("IterErrB" if call.get("iter_fail_base") and j >= 0 else "IterErr", [c, j]))
             if call.get("never") and case.get("timeout") is not None:
                 allowed.append(("TimeoutError", []))
             if (o["type"], list(o["args"])) not in allowed:
